@@ -400,7 +400,7 @@ func partB(r *ev.Run) {
 			r.Class("stateful_duplicate")
 		}
 	}
-	nblocks := 3
+	nblocks := r.QT(2, 3)
 	assignments := 1
 	for i := 0; i < 3; i++ {
 		assignments *= nblocks + 1
@@ -506,8 +506,8 @@ func main() {
 		"block heights near 2^32 (base+len overflow) are not part of the alphabet",
 		"stateful part: the validator is driven through its real actor mailbox (RequestFuture) with ledger.DefLedger = real LedgerStoreImp; transactions fail at execution (unknown contract) which still records them in the block store")
 	r.Finish(map[string]any{
-		"rule": fmt.Sprintf("BFS depth %d over events {clean} ∪ {add(h,set): h ∈ {next,+2,+3,repeat,oldest,base-1,0} or {0,1,5} when empty, set ⊆ {a,b,c}} for capacities 1,2,3; all queries tx∈{a,b,c,d} × start∈{0,base-1..end+1,MaxUint32} + BlockRange after every transition; default capacity (ctor arg 0,-1) 46 contiguous blocks; stateful actor: 64 tx→block assignments × {commit,sync} × 3 blocks + reopen",
-			st.MaxDepth),
+		"rule": fmt.Sprintf("BFS depth %d over events {clean} ∪ {add(h,set): h ∈ {next,+2,+3,repeat,oldest,base-1,0} or {0,1,5} when empty, set ⊆ {a,b,c}} for capacities 1,2,3; all queries tx∈{a,b,c,d} × start∈{0,base-1..end+1,MaxUint32} + BlockRange after every transition; default capacity (ctor arg 0,-1) 46 contiguous blocks; stateful actor: every assignment of {a,b,c} to {never, block 1..%d} × {commit,sync}, all four txs + genesis tx asked after every block and after reopen",
+			st.MaxDepth, r.QT(2, 3)),
 		"states": st.States, "transitions": st.Transitions, "traces_validated_against_impl": st.Transitions,
 		"max_depth": st.MaxDepth, "per_depth": st.PerDepth, "depth_capped": st.DepthCapped,
 	})
